@@ -86,17 +86,25 @@ inductive ToInt where
   | unmodelled
   deriving Repr, DecidableEq
 
-def toInt : Val → ToInt
-  | .num (.dec d) => match d.int64 with
+/-- the `decimal128.Decimal` branch of `toInt`: NaN and non-integral values are "a number, not an integer" -/
+def decToInt (d : Dec) : ToInt :=
+  if d.isNaN then .notInt
+  else match d.int64 with
     | .panic => .panic
     | .notOk => .notInt
-    | .ok i => .int i
+    | .ok i => if (Dec.ofInt i).equal d then .int i else .notInt
+
+def toInt : Val → ToInt
+  | .num (.dec d) => decToInt d
   | .num (.jnum t) => match parseInt64 t with
     | some i => .int i
-    | none => match parseFloatOk t with
-      | .ok => .notInt
-      | .bad => .notNum
-      | .unmodelled => .unmodelled
+    | none =>
+      match Dec.parse t with
+      | .ok d => decToInt d
+      | _ => match parseFloatOk t with
+        | .ok => .notInt
+        | .bad => .notNum
+        | .unmodelled => .unmodelled
   | .num (.f64 f) => match f.toInt with | some i => .int i | none => .notInt
   | .num (.f32 f) => match f.toInt with | some i => .int i | none => .notInt
   | .num (.int k v) =>
@@ -130,7 +138,7 @@ def add := arith F64.add Dec.add
 def subtract := arith F64.sub Dec.sub
 def multiply := arith F64.mul Dec.mul
 def divide := arith F64.div Dec.quo
-def integerDivide := arith (fun a b => (F64.div a b).floor) (fun a b => (Dec.quoRem a b).1)
+def integerDivide := arith (fun a b => (F64.div a b).trunc) (fun a b => (Dec.quoRem a b).1)
 def modulo := arith F64.mod (fun a b => (Dec.quoRem a b).2)
 
 def numAbs (v : Val) : Res Val :=
